@@ -4,7 +4,7 @@ of repository classes deriving from dict."""
 import z3
 
 from .core import (INT, BOOL, V, NONE, ABSENT, Unsupported, PyRaise, Seq, MList, is_z3, is_v, zint, zbool, conc,
-                   in_range)
+                   in_range, forall)
 from .interp import ModelFn, TypeObj, Instance, GenValue, OutSeq, PyList, ClassObj
 from . import models as M
 from .loops import merge
@@ -17,7 +17,7 @@ class Family:
         if pos is None:
             pos = ctx.fresh_fn(name + "_pos", V, INT)
             c = z3.Int("c!fam")
-            ctx.assumptions.append(z3.ForAll([c], z3.Implies(in_range(c, n), pos(key_at(c)) == c), patterns=[key_at(c)]))
+            ctx.assumptions.append(forall([c], z3.Implies(in_range(c, n), pos(key_at(c)) == c), patterns=[key_at(c)]))
         self.pos = pos
 
     def has(self, x):
